@@ -173,7 +173,7 @@ class World(sp.Obs):
             self.factory_calls.append((kind, a[0] if a else None, me.name if me else None,
                                        bool(me and me.role == "worker"),
                                        self.nest_level[me.name] if me else 0,
-                                       self.explicit_nest[me.name] if me else 0))
+                                       self.explicit_nest[me.name] if me else 0, len(self.events)))
         self.ev("note", kind, *a)
 
     def factory_kw(self, kind, kw):
